@@ -200,10 +200,12 @@ def build_hier(d):
             kw.update({"a_" + k: v for k, v in attrs.items()})
             conn = [["\\A", "i", 2, [["W", "\\pi", 0, 0]] if e["at"] == 1 else []],
                     ["\\Z", "i", 0, []],
+                    ["\\ZO", "o", 0, []],
                     ["\\K", "i", 2, [["c", ["0", "1"], 0, 1]]],
                     ["\\B", "o", 2, [["W", "\\xo%d" % idx, 0, 0]] if e["at"] == 1 else []],
                     ["\\C", "io", 2, [["W", "\\" + padname, 0, 0]] if e["at"] == 1 and not _name_taken(d, padname) else []]]
-            kw.update(i_A=pi, i_Z=zw, i_K=Const(2, 2), o_B=xo, io_C=pad)
+            # a zero-width output declared BEFORE a wider one (it occupies no bits of the cell's output)
+            kw.update(i_A=pi, i_Z=zw, i_K=Const(2, 2), o_ZO=Signal(0, name="zwo"), o_B=xo, io_C=pad)
             if sigs:
                 kw["i_D"] = sigs[0]
                 conn.append(["\\D", "i", len(sigs[0]), []])
@@ -431,12 +433,15 @@ def build_random(seed, size):
         given_src = rng.choice([None, None, "rtl/vendor/cell.v:42.3-57.6"])      # an attribute the back end also writes itself
         if given_src is not None:
             kw["a_src"] = given_src
+        if rng.random() < 0.5:
+            kw["o_E"] = Signal(0, name="e0")          # zero-width output ahead of Q
         kw.update(a_black_box=1, i_I=a, i_J=Cat(a, Const(1, 1)), o_Q=q, io_P=IOPort(1, name=rng.choice(["pin", "a"])))
         nm = rng.choice(["u", "a", ""])
         _add_sub(mods[k], "" if nm in taken[k] else nm, Instance("ext_cell", **kw))
         ports.append(q)
         foreign.append(["\\ext_cell", [["\\" + n, _wfc(v)] for n, v in params.items()], [["\\big", _wfc(big)], ["\\black_box", _wfc(1)]] + ([["\\src", _wfc(given_src)]] if given_src is not None else []),
-                        [["\\I", "i", len(a), []], ["\\J", "i", len(a) + 1, []], ["\\Q", "o", 3, []], ["\\P", "io", 1, []]]])
+                        [["\\I", "i", len(a), []], ["\\J", "i", len(a) + 1, []], ["\\Q", "o", 3, []], ["\\P", "io", 1, []]]
+                        + ([["\\E", "o", 0, []]] if "o_E" in kw else [])])
     if rng.random() < 0.5:
         # a pin group: one multi-bit IOPort whose bits are buffered one by one or in slices, with
         # different directions, by IO buffers placed in one or several modules of the tree
